@@ -31,6 +31,7 @@ type SpecEnv struct {
 	Ghost  map[string]TV
 	Ghost0 map[string]TV // values of the ghost variables in the pre-state (function entry / before the call): pre(g)
 	WM0    Term
+	LoopWM Term // watermark at the entry of the loop whose invariant is being evaluated
 	depth  int
 	// side conditions collected while evaluating (e.g. definedness); currently unused
 }
@@ -1114,6 +1115,20 @@ func (e *SpecEnv) call(x *ECall) TV {
 			wm = "WM!0"
 		}
 		return specTV(fmt.Sprintf("(> %s %s)", ref, wm), "Bool")
+	case "sinceloop":
+		// sinceloop(x): the reference was allocated after the loop (whose invariant this is) was entered
+		if e.LoopWM == "" {
+			efail("sinceloop() is only meaningful in a loop invariant")
+		}
+		v := e.eval(x.Args[0])
+		v = e.locTerm(v)
+		ref := v.T
+		if v.Sort == "Slice" {
+			ref = fmt.Sprintf("(s.base %s)", v.T)
+		} else if v.Sort == "Iface" {
+			ref = fmt.Sprintf("(i.val %s)", v.T)
+		}
+		return specTV(fmt.Sprintf("(> %s %s)", ref, e.LoopWM), "Bool")
 	case "typeIs":
 		// typeIs(x, T): dynamic type of interface x is T
 		v := e.eval(x.Args[0])
